@@ -9,13 +9,178 @@ use std::fmt::Debug;
 
 #[derive(Clone)]
 pub struct HashMap<K, V> {
-    entries: Vec<(K, V)>,
+    entries: Storage<(K, V)>,
 }
+
+/// Backing store of the model containers: a `Vec` natively; under Kani an
+/// inline array of `KANI_CAPACITY` slots (no heap buffer, hence no
+/// reallocation and no symbolic indexing into a byte array -- both are
+/// intractable for CBMC as soon as an element is written through a looked-up
+/// reference). Exceeding the capacity under Kani is a modelling error and
+/// panics.
+#[cfg(not(kani))]
+mod storage {
+    #[derive(Clone)]
+    pub struct Storage<T>(Vec<T>);
+    pub type Iter<'a, T> = std::slice::Iter<'a, T>;
+    pub type IterMut<'a, T> = std::slice::IterMut<'a, T>;
+    pub type IntoIter<T> = std::vec::IntoIter<T>;
+
+    impl<T> Storage<T> {
+        pub fn new() -> Self {
+            Self(Vec::new())
+        }
+        pub fn with_capacity(n: usize) -> Self {
+            Self(Vec::with_capacity(n))
+        }
+        pub fn len(&self) -> usize {
+            self.0.len()
+        }
+        pub fn push(&mut self, t: T) {
+            self.0.push(t);
+        }
+        pub fn iter(&self) -> Iter<'_, T> {
+            self.0.iter()
+        }
+        pub fn iter_mut(&mut self) -> IterMut<'_, T> {
+            self.0.iter_mut()
+        }
+        pub fn remove(&mut self, i: usize) -> T {
+            self.0.remove(i)
+        }
+        pub fn retain_mut(&mut self, f: impl FnMut(&mut T) -> bool) {
+            self.0.retain_mut(f);
+        }
+        pub fn clear(&mut self) {
+            self.0.clear();
+        }
+        pub fn last_mut(&mut self) -> Option<&mut T> {
+            self.0.last_mut()
+        }
+        pub fn into_iter(self) -> IntoIter<T> {
+            self.0.into_iter()
+        }
+    }
+}
+
+#[cfg(kani)]
+mod storage {
+    pub const KANI_CAPACITY: usize = 3;
+
+    #[derive(Clone)]
+    pub struct Storage<T> {
+        len: usize,
+        slots: [Option<T>; KANI_CAPACITY],
+    }
+    pub type Iter<'a, T> = std::iter::Flatten<std::slice::Iter<'a, Option<T>>>;
+    pub type IterMut<'a, T> = std::iter::Flatten<std::slice::IterMut<'a, Option<T>>>;
+
+    pub struct IntoIter<T> {
+        next: usize,
+        slots: [Option<T>; KANI_CAPACITY],
+    }
+
+    impl<T> Iterator for IntoIter<T> {
+        type Item = T;
+        fn next(&mut self) -> Option<T> {
+            while self.next < KANI_CAPACITY {
+                let i = self.next;
+                self.next += 1;
+                if let Some(t) = self.slots[i].take() {
+                    return Some(t);
+                }
+            }
+            None
+        }
+    }
+
+    impl<T> Storage<T> {
+        pub fn new() -> Self {
+            Self {
+                len: 0,
+                slots: [None, None, None],
+            }
+        }
+        pub fn with_capacity(_n: usize) -> Self {
+            Self::new()
+        }
+        pub fn len(&self) -> usize {
+            self.len
+        }
+        pub fn push(&mut self, t: T) {
+            assert!(
+                self.len < KANI_CAPACITY,
+                "verif_model::collections capacity exceeded"
+            );
+            // slots are kept compact: the first free slot is `len`
+            if self.len == 0 {
+                self.slots[0] = Some(t);
+            } else if self.len == 1 {
+                self.slots[1] = Some(t);
+            } else {
+                self.slots[2] = Some(t);
+            }
+            self.len += 1;
+        }
+        pub fn iter(&self) -> Iter<'_, T> {
+            self.slots.iter().flatten()
+        }
+        pub fn iter_mut(&mut self) -> IterMut<'_, T> {
+            self.slots.iter_mut().flatten()
+        }
+        pub fn remove(&mut self, i: usize) -> T {
+            assert!(i < self.len);
+            let mut k = i;
+            let out = self.slots[k].take().expect("compact storage");
+            while k + 1 < KANI_CAPACITY {
+                self.slots[k] = self.slots[k + 1].take();
+                k += 1;
+            }
+            self.len -= 1;
+            out
+        }
+        pub fn retain_mut(&mut self, mut f: impl FnMut(&mut T) -> bool) {
+            let mut kept: [Option<T>; KANI_CAPACITY] = [None, None, None];
+            let mut n = 0;
+            let mut i = 0;
+            while i < KANI_CAPACITY {
+                if let Some(mut t) = self.slots[i].take() {
+                    if f(&mut t) {
+                        kept[n] = Some(t);
+                        n += 1;
+                    }
+                }
+                i += 1;
+            }
+            self.slots = kept;
+            self.len = n;
+        }
+        pub fn clear(&mut self) {
+            self.slots = [None, None, None];
+            self.len = 0;
+        }
+        pub fn last_mut(&mut self) -> Option<&mut T> {
+            if self.len == 0 {
+                None
+            } else {
+                self.slots[self.len - 1].as_mut()
+            }
+        }
+        pub fn into_iter(self) -> IntoIter<T> {
+            IntoIter {
+                next: 0,
+                slots: self.slots,
+            }
+        }
+    }
+}
+
+use storage::Storage;
 
 impl<K, V> Default for HashMap<K, V> {
     fn default() -> Self {
         Self {
-            entries: Vec::new(),
+            entries: Storage::new(),
         }
     }
 }
@@ -49,7 +214,7 @@ impl<K, V> HashMap<K, V> {
     #[must_use]
     pub fn with_capacity(capacity: usize) -> Self {
         Self {
-            entries: Vec::with_capacity(capacity),
+            entries: Storage::with_capacity(capacity),
         }
     }
 
@@ -58,7 +223,7 @@ impl<K, V> HashMap<K, V> {
     }
 
     pub fn is_empty(&self) -> bool {
-        self.entries.is_empty()
+        self.entries.len() == 0
     }
 
     pub fn keys(&self) -> impl Iterator<Item = &K> {
@@ -99,12 +264,18 @@ impl<K: Eq, V> HashMap<K, V> {
         self.entries.iter().position(|(k, _)| k.borrow() == key)
     }
 
+    // Lookups hand out references found by iteration (never `entries[i]` with a
+    // searched-for index: symbolic indexing into a heap buffer is what CBMC
+    // handles worst).
     pub fn get<Q>(&self, key: &Q) -> Option<&V>
     where
         K: Borrow<Q>,
         Q: Eq + ?Sized,
     {
-        self.position(key).map(|i| &self.entries[i].1)
+        self.entries
+            .iter()
+            .find(|(k, _)| k.borrow() == key)
+            .map(|(_, v)| v)
     }
 
     pub fn get_mut<Q>(&mut self, key: &Q) -> Option<&mut V>
@@ -112,10 +283,10 @@ impl<K: Eq, V> HashMap<K, V> {
         K: Borrow<Q>,
         Q: Eq + ?Sized,
     {
-        match self.position(key) {
-            Some(i) => Some(&mut self.entries[i].1),
-            None => None,
-        }
+        self.entries
+            .iter_mut()
+            .find(|(k, _)| (*k).borrow() == key)
+            .map(|(_, v)| v)
     }
 
     pub fn contains_key<Q>(&self, key: &Q) -> bool
@@ -123,12 +294,12 @@ impl<K: Eq, V> HashMap<K, V> {
         K: Borrow<Q>,
         Q: Eq + ?Sized,
     {
-        self.position(key).is_some()
+        self.entries.iter().any(|(k, _)| k.borrow() == key)
     }
 
     pub fn insert(&mut self, key: K, value: V) -> Option<V> {
-        match self.position(&key) {
-            Some(i) => Some(std::mem::replace(&mut self.entries[i].1, value)),
+        match self.get_mut(&key) {
+            Some(slot) => Some(std::mem::replace(slot, value)),
             None => {
                 self.entries.push((key, value));
                 None
@@ -149,14 +320,20 @@ impl<K: Eq, V> HashMap<K, V> {
     }
 
     pub fn entry(&mut self, key: K) -> hash_map::Entry<'_, K, V> {
-        match self.position(&key) {
-            Some(index) => hash_map::Entry::Occupied(hash_map::OccupiedEntry { map: self, index }),
-            None => hash_map::Entry::Vacant(hash_map::VacantEntry { map: self, key }),
+        if self.contains_key(&key) {
+            let slot = self
+                .entries
+                .iter_mut()
+                .find(|(k, _)| *k == key)
+                .expect("key is present");
+            hash_map::Entry::Occupied(hash_map::OccupiedEntry { slot })
+        } else {
+            hash_map::Entry::Vacant(hash_map::VacantEntry { map: self, key })
         }
     }
 }
 
-pub struct Iter<'a, K, V>(std::slice::Iter<'a, (K, V)>);
+pub struct Iter<'a, K, V>(storage::Iter<'a, (K, V)>);
 
 impl<'a, K, V> Iterator for Iter<'a, K, V> {
     type Item = (&'a K, &'a V);
@@ -180,7 +357,7 @@ impl<'a, K, V> IntoIterator for &'a HashMap<K, V> {
 }
 
 impl<K, V> IntoIterator for HashMap<K, V> {
-    type IntoIter = std::vec::IntoIter<(K, V)>;
+    type IntoIter = storage::IntoIter<(K, V)>;
     type Item = (K, V);
 
     fn into_iter(self) -> Self::IntoIter {
@@ -256,8 +433,7 @@ pub mod hash_map {
     }
 
     pub struct OccupiedEntry<'a, K, V> {
-        pub(super) map: &'a mut HashMap<K, V>,
-        pub(super) index: usize,
+        pub(super) slot: &'a mut (K, V),
     }
 
     pub struct VacantEntry<'a, K, V> {
@@ -267,27 +443,23 @@ pub mod hash_map {
 
     impl<'a, K, V> OccupiedEntry<'a, K, V> {
         pub fn key(&self) -> &K {
-            &self.map.entries[self.index].0
+            &self.slot.0
         }
 
         pub fn get(&self) -> &V {
-            &self.map.entries[self.index].1
+            &self.slot.1
         }
 
         pub fn get_mut(&mut self) -> &mut V {
-            &mut self.map.entries[self.index].1
+            &mut self.slot.1
         }
 
         pub fn into_mut(self) -> &'a mut V {
-            &mut self.map.entries[self.index].1
+            &mut self.slot.1
         }
 
         pub fn insert(&mut self, value: V) -> V {
-            std::mem::replace(&mut self.map.entries[self.index].1, value)
-        }
-
-        pub fn remove(self) -> V {
-            self.map.entries.remove(self.index).1
+            std::mem::replace(&mut self.slot.1, value)
         }
     }
 
@@ -298,8 +470,7 @@ pub mod hash_map {
 
         pub fn insert(self, value: V) -> &'a mut V {
             self.map.entries.push((self.key, value));
-            let last = self.map.entries.len() - 1;
-            &mut self.map.entries[last].1
+            &mut self.map.entries.last_mut().expect("just pushed").1
         }
     }
 
@@ -322,12 +493,14 @@ pub mod hash_map {
 
 #[derive(Clone)]
 pub struct HashSet<T> {
-    items: Vec<T>,
+    items: Storage<T>,
 }
 
 impl<T> Default for HashSet<T> {
     fn default() -> Self {
-        Self { items: Vec::new() }
+        Self {
+            items: Storage::new(),
+        }
     }
 }
 
@@ -354,7 +527,7 @@ impl<T> HashSet<T> {
     #[must_use]
     pub fn with_capacity(capacity: usize) -> Self {
         Self {
-            items: Vec::with_capacity(capacity),
+            items: Storage::with_capacity(capacity),
         }
     }
 
@@ -363,10 +536,10 @@ impl<T> HashSet<T> {
     }
 
     pub fn is_empty(&self) -> bool {
-        self.items.is_empty()
+        self.items.len() == 0
     }
 
-    pub fn iter(&self) -> std::slice::Iter<'_, T> {
+    pub fn iter(&self) -> storage::Iter<'_, T> {
         self.items.iter()
     }
 
@@ -408,7 +581,8 @@ impl<T: Eq> HashSet<T> {
     }
 
     pub fn retain(&mut self, f: impl FnMut(&T) -> bool) {
-        self.items.retain(f);
+        let mut f = f;
+        self.items.retain_mut(|t| f(t));
     }
 
     pub fn is_subset(&self, other: &Self) -> bool {
@@ -417,7 +591,7 @@ impl<T: Eq> HashSet<T> {
 }
 
 impl<'a, T> IntoIterator for &'a HashSet<T> {
-    type IntoIter = std::slice::Iter<'a, T>;
+    type IntoIter = storage::Iter<'a, T>;
     type Item = &'a T;
 
     fn into_iter(self) -> Self::IntoIter {
@@ -426,7 +600,7 @@ impl<'a, T> IntoIterator for &'a HashSet<T> {
 }
 
 impl<T> IntoIterator for HashSet<T> {
-    type IntoIter = std::vec::IntoIter<T>;
+    type IntoIter = storage::IntoIter<T>;
     type Item = T;
 
     fn into_iter(self) -> Self::IntoIter {
